@@ -34,6 +34,8 @@ import (
 //   future-completed-without-ack  a future completed although no matching acknowledgement had arrived
 //   future-cancelled-by-reconnect a future of a written command was cancelled without Stop(true), a rejected
 //                                 subscription, a failed write or its packet id being taken by a later packet
+//   future-cancelled-while-queued a queued command's future was cancelled although no client call failed and no
+//                                 Stop(true) was called after the command had been issued
 //   inbound-order                 MessageCallback saw messages of one QoS out of arrival order / twice
 
 type cmdTrack struct {
@@ -120,7 +122,7 @@ func (w *World) runMonitors() {
 		cands = nil
 	}
 	ack := func(e hev, live, rej bool, match func(*cmdTrack) bool) {
-		if e.conn != curConn || !established[e.conn] {
+		if !established[e.conn] {
 			return
 		}
 		for _, t := range issued {
@@ -433,7 +435,10 @@ func (w *World) runMonitors() {
 		if st == "c" && !t.ackSeen {
 			w.hitOnce(seen, "future-completed-without-ack", fmt.Sprintf("command #%d (%s, packet id %d) completed, no matching acknowledgement had arrived", c.n, c.kind, t.id))
 		}
-		if st == "x" && t.written && !t.rejected && !t.displaced && c.issued && !w.stopClearsAfter(c) && !(t.c.kind == "pub" && t.c.msg.QOS == 0) {
+		if st == "x" && c.issued && !t.written && !t.failed && !w.cancelledByStop(c) {
+			w.hitOnce(seen, "future-cancelled-while-queued", fmt.Sprintf("command #%d (%s) was accepted into the queue and its future was cancelled although it was never handed to a client and no Stop(true) was called after it had been issued", c.n, c.kind))
+		}
+		if st == "x" && t.written && !t.rejected && !t.displaced && c.issued && !w.cancelledByStop(c) && !(t.c.kind == "pub" && t.c.msg.QOS == 0) {
 			w.hitOnce(seen, "future-cancelled-by-reconnect", fmt.Sprintf("command #%d (%s) was written to connection %d and its future was cancelled although the service was never stopped with clearFutures", c.n, c.kind, t.conn))
 		}
 	}
@@ -449,6 +454,22 @@ func (w *World) stopClearsAfter(c *cmdRec) bool {
 			calls[e.n] = true
 		}
 		if e.kind == "stop-ret" && e.b && calls[e.n] {
+			return true
+		}
+	}
+	return false
+}
+
+// cancelledByStop: when the future was resolved, a Stop(true) called after the command had been
+// issued was in progress or had returned (a Stop(true) that comes later does not explain it)
+func (w *World) cancelledByStop(c *cmdRec) bool {
+	w.mu.Lock()
+	defer w.mu.Unlock()
+	for _, e := range w.hist {
+		if e.kind == "fut" && e.n == c.n {
+			return false
+		}
+		if e.kind == "stop-call" && e.b && e.n > c.stopsAfter {
 			return true
 		}
 	}
